@@ -32,7 +32,7 @@ EXTENDS Integers, Sequences, FiniteSets, TLC, Json
 CONSTANT Level     \* 1: quick program families; 2: also deeper nestings and all action shapes
 
 Sigs == <<"USR1", "USR2", "INT", "QUIT">>          \* order of the `disp` string
-SigSet == {Sigs[i] : i \in 1..Len(Sigs)}
+SigSet == {Sigs[i] : i \in 1..Len(Sigs)} \cup {"TERM", "SEGV"}
 
 \* Uniform node: kind, string argument, integer argument, two child sequences
 N(k, s, n, a, b) == [k |-> k, s |-> s, n |-> n, a |-> a, b |-> b]
@@ -61,6 +61,14 @@ SigNodes(gs)   == [i \in 1..Len(gs) |-> N("sig", gs[i], 0, <<>>, <<>>)]
 TrapCmdN(gs, bd) == N("trapcmdn", "", 0, bd, SigNodes(gs))
 TrapIgnN(gs)   == N("trapignn", "", 0, <<>>, SigNodes(gs))
 TrapDflN(gs)   == N("trapdfln", "", 0, <<>>, SigNodes(gs))
+Fifo3          == N("fifo3", "", 0, <<>>, <<>>)     \* exec 3<>/tmp/fifo (never blocks; read end stays open)
+\* `read x <&3` in the main shell while background jobs act on it.  Variant n:
+\*   0  one job sends g and writes the line in one go (signal and completion in the same step)
+\*   1  one job sends g; another writes the line later (`nap` = a timer of the simulated clock)
+\*   2  as 1, and a third job sends USR2 in between (two signals, separate batches)
+\*   3  one job sends g; another sends SIGINT later; nobody writes (interactive shell only)
+\*   4  as 3 with USR2 in between
+ReadWith(g, n) == N("readwith", g, n, <<>>, <<>>)
 BgBlock        == N("bgblock", "", 0, <<>>, <<>>) \* a job that never ends by itself: sink </tmp/fifo & p1=$!
 WaitJob        == N("waitjob", "", 0, <<>>, <<>>) \* wait $p1
 
@@ -92,6 +100,14 @@ Render(nd) ==
     [] nd.k = "async"   -> "{ " \o RenderSeq(nd.a) \o "; } & wait"
     [] nd.k = "bgkill"  -> "{ kill -s " \o nd.s \o " $$; } &"
     [] nd.k = "wait"    -> "wait"
+    [] nd.k = "fifo3"   -> "exec 3<>/tmp/fifo"
+    [] nd.k = "readwith" ->
+         (CASE nd.n = 0 -> "{ kill -s " \o nd.s \o " $$; echo v >&3; } &"
+            [] nd.n = 1 -> "{ kill -s " \o nd.s \o " $$; } & { nap 1; echo v >&3; } &"
+            [] nd.n = 2 -> "{ kill -s " \o nd.s \o " $$; } & { nap 1; kill -s USR2 $$; } & { nap 2; echo v >&3; } &"
+            [] nd.n = 3 -> "{ kill -s " \o nd.s \o " $$; } & { nap 1; kill -s INT $$; } &"
+            [] nd.n = 4 -> "{ kill -s " \o nd.s \o " $$; } & { nap 1; kill -s USR2 $$; } & { nap 2; kill -s INT $$; } &")
+         \o " read x <&3"
     [] nd.k = "bgblock" -> "sink </tmp/fifo & p1=$!"
     [] nd.k = "bgexit"  -> "status 0 &"
     [] nd.k = "trapcmdn" -> "trap '" \o RenderSeq(nd.a) \o "'" \o Names(nd.b)
@@ -220,6 +236,16 @@ Exec(nd, s) ==
                                    \* or the signaller is already gone and wait succeeds
                                    \cup Boundary([a EXCEPT !.st = 0])
 
+    [] nd.k = "fifo3"   -> Leaf([s EXCEPT !.st = 0])
+    [] nd.k = "readwith" ->
+         \* every signal sent reaches the shell while it is blocked in `read` (it does not yield
+         \* before); the actions run once each at the boundary after `read` - whether read
+         \* completed (a line arrived) or was interrupted by SIGINT (interactive shell, default
+         \* SIGINT: the rest of the script is abandoned after that boundary)
+         LET d1 == Deliver(s, nd.s)
+             d2 == IF nd.n \in {2, 4} THEN Deliver(d1, "USR2") ELSE d1
+             B  == Boundary([d2 EXCEPT !.st = 0])
+         IN IF nd.n \in {3, 4} THEN {[r EXCEPT !.halt = TRUE] : r \in B} ELSE B
     [] nd.k = "bgblock" -> Leaf([s EXCEPT !.st = 0])
     [] nd.k = "bgexit"  -> Leaf([s EXCEPT !.st = 0])
     [] nd.k = "trapcmdn" -> Leaf([SetTraps(s, nd.b, Cmd(nd.a)) EXCEPT !.st = 0])
@@ -259,11 +285,11 @@ Actions == { <<Probe("T")>>, <<Status(7), Probe("T")>>, <<Probe("T"), Status(7)>
 
 \* the signal is sent by the shell to itself at one syntactic position
 SyncProgs1 ==
-  {[fam |-> "sync1:" \o k, init |-> AllDefault,
+  {[fam |-> "sync1:" \o k, init |-> AllDefault, opts |-> "",
     prog |-> <<TrapCmd("USR1", a), Status(3), Ctx(k, <<Kill("USR1")>>), Probe("a"), Status(4), Probe("b")>>]
    : k \in CtxKinds, a \in Actions}
 SyncProgs2 ==
-  {[fam |-> "sync2:" \o k1 \o "/" \o k2, init |-> AllDefault,
+  {[fam |-> "sync2:" \o k1 \o "/" \o k2, init |-> AllDefault, opts |-> "",
     prog |-> <<TrapCmd("USR1", a), Status(3), Ctx(k1, <<Ctx(k2, <<Kill("USR1")>>)>>), Probe("a"), Status(4), Probe("b")>>]
    : <<k1, k2>> \in {kk \in CtxKinds \X CtxKinds : ~(kk[1] = "eval" /\ kk[2] = "eval")},
      a \in {<<Probe("T"), Status(7)>>}}
@@ -271,42 +297,42 @@ SyncProgs2 ==
 \* a signal that arrives while a trap action runs; two deliveries before one boundary;
 \* ignored and reset traps; dispositions after trap commands and in subshells
 OtherProgs ==
-  { [fam |-> "nested", init |-> AllDefault,
+  { [fam |-> "nested", init |-> AllDefault, opts |-> "",
      prog |-> <<TrapCmd("USR1", <<Kill("USR2"), Probe("T1")>>), TrapCmd("USR2", <<Probe("T2")>>),
                Status(3), Kill("USR1"), Probe("a"), Status(4), Probe("b")>>],
-    [fam |-> "nested-sub", init |-> AllDefault,
+    [fam |-> "nested-sub", init |-> AllDefault, opts |-> "",
      prog |-> <<TrapCmd("USR1", <<Sub(<<Kill("USR2"), Status(5)>>), Probe("T1")>>), TrapCmd("USR2", <<Probe("T2")>>),
                Status(3), Sub(<<Kill("USR1"), Status(2)>>), Probe("a"), Probe("b")>>],
-    [fam |-> "coalesce", init |-> AllDefault,
+    [fam |-> "coalesce", init |-> AllDefault, opts |-> "",
      prog |-> <<TrapCmd("USR1", <<Probe("T")>>), Sub(<<Kill("USR1"), Kill("USR1"), Status(5)>>), Probe("a")>>],
-    [fam |-> "two-signals", init |-> AllDefault,
+    [fam |-> "two-signals", init |-> AllDefault, opts |-> "",
      prog |-> <<TrapCmd("USR1", <<Probe("T1")>>), TrapCmd("USR2", <<Probe("T2")>>),
                Sub(<<Kill("USR1"), Kill("USR2"), Status(5)>>), Probe("a")>>],
-    [fam |-> "ignore", init |-> AllDefault,
+    [fam |-> "ignore", init |-> AllDefault, opts |-> "",
      prog |-> <<TrapIgn("USR1"), Disp("d1"), Status(3), Kill("USR1"), Probe("a"), Sub(<<Disp("c1"), Kill("USR1"), Probe("c")>>),
                TrapCmd("USR1", <<Probe("T")>>), Disp("d2"), Kill("USR1"), Probe("b")>>],
-    [fam |-> "reset-in-subshell", init |-> AllDefault,
+    [fam |-> "reset-in-subshell", init |-> AllDefault, opts |-> "",
      prog |-> <<TrapCmd("USR1", <<Probe("T")>>), TrapIgn("USR2"), TrapCmd("INT", <<Probe("TI")>>), Disp("m1"),
                Sub(<<Disp("c1"), TrapCmd("USR2", <<Probe("C")>>), Disp("c2"), Sub(<<Disp("cc")>>)>>),
                Disp("m2"), TrapDfl("USR1"), TrapDfl("INT"), Disp("m3")>>],
-    [fam |-> "ignored-on-entry", init |-> Usr1Ignored,
+    [fam |-> "ignored-on-entry", init |-> Usr1Ignored, opts |-> "",
      prog |-> <<Disp("d0"), TrapCmd("USR1", <<Probe("T")>>), Probe("s1"), Disp("d1"), Kill("USR1"), Probe("a"),
                TrapDfl("USR1"), Probe("s2"), Disp("d2"), Kill("USR1"), Probe("b"),
                Sub(<<TrapCmd("USR1", <<Probe("C")>>), Disp("c1"), Kill("USR1"), Probe("c")>>), Probe("e")>>],
-    [fam |-> "ignored-on-entry-after-listing", init |-> Usr1Ignored,
+    [fam |-> "ignored-on-entry-after-listing", init |-> Usr1Ignored, opts |-> "",
      prog |-> <<TrapPrint("USR1"), TrapCmd("USR1", <<Probe("T")>>), Disp("d1"), Kill("USR1"), Probe("a"),
                TrapDfl("USR1"), Disp("d2"), Kill("USR1"), Probe("b"),
                Sub(<<TrapPrint("USR1"), TrapCmd("USR1", <<Probe("C")>>), Disp("c1"), Kill("USR1"), Probe("c")>>), Probe("e")>>],
-    [fam |-> "async-ignores-int-quit", init |-> AllDefault,
+    [fam |-> "async-ignores-int-quit", init |-> AllDefault, opts |-> "",
      prog |-> <<TrapCmd("USR1", <<Probe("T")>>), Disp("m1"), Async(<<Disp("c1")>>), Disp("m2")>>],
-    [fam |-> "async-child-traps-int", init |-> AllDefault,
+    [fam |-> "async-child-traps-int", init |-> AllDefault, opts |-> "",
      prog |-> <<Async(<<TrapCmd("INT", <<Probe("C")>>), Disp("c1")>>), Disp("m1")>>],
-    [fam |-> "async-child-traps-int-after-listing", init |-> AllDefault,
+    [fam |-> "async-child-traps-int-after-listing", init |-> AllDefault, opts |-> "",
      prog |-> <<TrapPrint("INT"), Async(<<TrapCmd("INT", <<Probe("C")>>), Disp("c1")>>), Disp("m1")>>] }
 
 \* the signal is sent by another process at a moment the scheduler chooses
 AsyncProgs ==
-  {[fam |-> "bg:" \o k, init |-> AllDefault,
+  {[fam |-> "bg:" \o k, init |-> AllDefault, opts |-> "",
     prog |-> <<TrapCmd("USR1", a), BgKill("USR1"), Status(3), Ctx(k, <<Probe("a")>>), Status(4), Probe("b"), Wait, Probe("w")>>]
    \* (the main shell is pre-empted only where it blocks: in the foreground subshells and in wait)
    : k \in {"plain", "sub", "subst", "for", "ifc", "func"}, a \in {<<Probe("T"), Status(7)>>, <<Status(7), Probe("T")>>}}
@@ -314,12 +340,12 @@ AsyncProgs ==
 \* thorough tier: every action shape at two levels, three levels of the process-creating
 \* and looping contexts, and another signal
 SyncProgs2All ==
-  {[fam |-> "sync2:" \o kk[1] \o "/" \o kk[2], init |-> AllDefault,
+  {[fam |-> "sync2:" \o kk[1] \o "/" \o kk[2], init |-> AllDefault, opts |-> "",
     prog |-> <<TrapCmd("USR1", a), Status(3), Ctx(kk[1], <<Ctx(kk[2], <<Kill("USR1")>>)>>), Probe("a"), Status(4), Probe("b")>>]
    : kk \in {kk \in CtxKinds \X CtxKinds : ~(kk[1] = "eval" /\ kk[2] = "eval")}, a \in Actions}
 Deep == {"sub", "for", "ifc", "subst", "func", "brace"}
 SyncProgs3 ==
-  {[fam |-> "sync3:" \o kk[1] \o "/" \o kk[2] \o "/" \o kk[3], init |-> AllDefault,
+  {[fam |-> "sync3:" \o kk[1] \o "/" \o kk[2] \o "/" \o kk[3], init |-> AllDefault, opts |-> "",
     prog |-> <<TrapCmd("INT", <<Probe("T"), Status(7)>>), Status(3),
                Ctx(kk[1], <<Ctx(kk[2], <<Ctx(kk[3], <<Kill("INT")>>)>>)>>), Probe("a"), Status(4), Probe("b")>>]
    : kk \in Deep \X Deep \X Deep}
@@ -328,7 +354,7 @@ SyncProgs3 ==
 \* shell and exits at once: the signal and the SIGCHLD for that other job reach the shell
 \* together; the trapped signal must still interrupt the wait.
 WaitJobProgs ==
-  {[fam |-> "wait-job:" \o k, init |-> AllDefault,
+  {[fam |-> "wait-job:" \o k, init |-> AllDefault, opts |-> "",
     prog |-> <<TrapCmd("USR1", a), BgBlock, Status(3), Ctx(k, <<Probe("a")>>), BgKill("USR1"), WaitJob, Probe("w"), Status(4), Probe("b")>>]
    : k \in {"plain", "for", "func"}, a \in {<<Probe("T"), Status(7)>>, <<Status(7), Probe("T")>>}}
 
@@ -336,7 +362,7 @@ WaitJobProgs ==
 \* the enumerated schedules its SIGCHLD reaches the shell before, after or together with the
 \* trapped signal, in either order within one batch
 WaitJobProgs2 ==
-  {[fam |-> "wait-job2:" \o k, init |-> AllDefault,
+  {[fam |-> "wait-job2:" \o k, init |-> AllDefault, opts |-> "",
     prog |-> <<TrapCmd("USR1", <<Probe("T"), Status(7)>>), BgBlock, Status(3), Probe("a")>> \o mid \o <<WaitJob, Probe("w"), Status(4), Probe("b")>>]
    : <<k, mid>> \in { <<"exit-kill", <<BgExit, BgKill("USR1")>> >>, <<"kill-exit", <<BgKill("USR1"), BgExit>> >>,
                      <<"exit-exit-kill", <<BgExit, BgExit, BgKill("USR1")>> >> }}
@@ -349,10 +375,34 @@ MultiBody(tag) == <<Disp(tag \o "0"),
    TrapCmdN(<<"QUIT", "INT", "USR1">>, <<Probe("U")>>), Disp(tag \o "4"), Kill("QUIT"), Probe("d"),
    Sub(<<TrapCmdN(<<"USR1", "USR2">>, <<Probe("C")>>), Disp(tag \o "5")>>), Probe("e")>>
 MultiProgs ==
-  { [fam |-> "multi-condition", init |-> AllDefault, prog |-> MultiBody("d")],
-    [fam |-> "multi-condition-ignored-on-entry", init |-> Usr1Ignored, prog |-> MultiBody("i")] }
+  { [fam |-> "multi-condition", init |-> AllDefault, opts |-> "", prog |-> MultiBody("d")],
+    [fam |-> "multi-condition-ignored-on-entry", init |-> Usr1Ignored, opts |-> "", prog |-> MultiBody("i")] }
 
-Programs == WaitJobProgs \cup WaitJobProgs2 \cup MultiProgs \cup SyncProgs1 \cup SyncProgs2 \cup OtherProgs \cup AsyncProgs
+\* a signal handler installed before the shell started (SEGV and BUS under the Rust runtime on
+\* a real kernel): not "ignored on entry" - the signal can be trapped, listed, run and reset
+CaughtOnEntry == [AllDefault EXCEPT !["USR1"] = "C", !["SEGV"] = "C"]
+CaughtProgs ==
+  { [fam |-> "caught-on-entry", init |-> CaughtOnEntry, opts |-> "",
+     prog |-> <<Disp("d0"), TrapCmd("USR1", <<Probe("T")>>), Probe("s1"), Disp("d1"), Kill("USR1"), Probe("a"),
+               TrapDfl("USR1"), Disp("d2"), TrapIgn("USR1"), Disp("d3"), Kill("USR1"), Probe("b"),
+               TrapCmdN(<<"USR2", "USR1">>, <<Probe("U")>>), Disp("d4"), Kill("USR1"), Probe("c"),
+               Sub(<<Disp("c0"), TrapCmd("USR1", <<Probe("C")>>), Disp("c1")>>), Probe("e")>>],
+    [fam |-> "caught-on-entry-after-listing", init |-> CaughtOnEntry, opts |-> "",
+     prog |-> <<TrapPrint("USR1"), Disp("d0"), TrapCmd("USR1", <<Probe("T")>>), Disp("d1"), Kill("USR1"), Probe("a"),
+               TrapDfl("USR1"), Disp("d2")>>],
+    [fam |-> "caught-on-entry-segv", init |-> CaughtOnEntry, opts |-> "",
+     prog |-> <<TrapCmd("SEGV", <<Probe("T"), Status(7)>>), Probe("s1"), Status(3), Kill("SEGV"), Probe("a"),
+               TrapDfl("SEGV"), Probe("b")>>] }
+
+\* a signal that arrives while a built-in of the main shell blocks (read on a descriptor with
+\* no data yet), non-interactive and interactive (option -i, SIGINT at its default)
+ReadProgs ==
+  {[fam |-> "read" \o x[1] \o ":" \o ToString(x[2]) \o ":" \o x[3], init |-> AllDefault, opts |-> x[1],
+    prog |-> <<Fifo3, TrapCmd(x[3], <<Probe("T"), Status(7)>>), TrapCmd("USR2", <<Probe("U")>>), Status(3), Probe("a"),
+               ReadWith(x[3], x[2]), Probe("r"), Status(4), Probe("b")>>]
+   : x \in ({"", "-i"} \X {0, 1, 2} \X {"USR1", "TERM"}) \cup ({"-i"} \X {3, 4} \X {"USR1", "TERM"})}
+
+Programs == CaughtProgs \cup ReadProgs \cup WaitJobProgs \cup WaitJobProgs2 \cup MultiProgs \cup SyncProgs1 \cup SyncProgs2 \cup OtherProgs \cup AsyncProgs
             \cup (IF Level >= 2 THEN SyncProgs2All \cup SyncProgs3 ELSE {})
 
 \* Generator: one state per program; the line carries the script and the traces allowed
@@ -361,8 +411,8 @@ GenInit == p \in Programs
 GenNext == UNCHANGED p
 GenSpec == GenInit /\ [][GenNext]_p
 EmitProgram ==
-  PrintT(ToJson([fam |-> p.fam, init |-> p.init, script |-> RenderSeq(p.prog),
-                 allowed |-> Allowed(p.init, p.prog), sched |-> (p \in AsyncProgs \cup WaitJobProgs \cup WaitJobProgs2)]))
+  PrintT(ToJson([fam |-> p.fam, init |-> p.init, opts |-> p.opts, script |-> RenderSeq(p.prog),
+                 allowed |-> Allowed(p.init, p.prog), real |-> (p.fam = "caught-on-entry-segv"), sched |-> (p \in AsyncProgs \cup WaitJobProgs \cup WaitJobProgs2 \cup ReadProgs)]))
 
 \* sanity of the oracle itself (checked by TLC on every generated program)
 \* every allowed trace of a program that sends k signals runs the action between 1 and k times
